@@ -24,7 +24,9 @@ import ast, os, re, json, subprocess, time, textwrap
 
 # --------------------------------------------------------------------------- types
 Z, F, OF, B, OZ = "Z", "F", "OF", "B", "OZ"
-COQTY = {Z: "Z", F: "R", OF: "option R", B: "bool", OZ: "option Z"}
+COQTY = {Z: "Z", F: "R", OF: "option R", B: "bool", OZ: "option Z",
+         # tensor kernels (row-wise semantics, see VecTr): vectors, matrices, 0/1 configurations, complex pairs
+         "V": "list R", "M": "list (list R)", "BV": "bits", "OBV": "option bits", "C": "(R * R)"}
 
 
 class Untranslatable(Exception):
@@ -158,7 +160,7 @@ class Tr:
             b = {}
             if _match(pat, node, b):
                 out = coq
-                for k, sub in b.items():
+                for k, sub in sorted(b.items(), key=lambda kv: -len(kv[0])):
                     se, st = self.expr(sub, env)
                     want = Z
                     out = out.replace("$" + k, self.coerce(se, st, want))
@@ -292,7 +294,7 @@ class Tr:
         if len(node.ops) == 1 and isinstance(node.ops[0], (ast.Is, ast.IsNot)) and isinstance(node.comparators[0], ast.Constant) \
                 and node.comparators[0].value is None:
             a, ta = self.expr(node.left, env)
-            if ta != OZ:
+            if ta not in (OZ, "OBV"):
                 raise Untranslatable("`is None` on a value that is never None here")
             e = "(match %s with Some _ => false | None => true end)" % a
             return (e if isinstance(node.ops[0], ast.Is) else "(negb %s)" % e), B
@@ -309,7 +311,7 @@ class Tr:
             return env[test.id][0], test.id, True, False
         if isinstance(test, ast.Compare) and len(test.ops) == 1 and isinstance(test.left, ast.Name) \
                 and isinstance(test.comparators[0], ast.Constant) and test.comparators[0].value is None \
-                and test.left.id in env and not isinstance(env[test.left.id], Poison) and env[test.left.id][1] == OZ:
+                and test.left.id in env and not isinstance(env[test.left.id], Poison) and env[test.left.id][1] in (OZ, "OBV"):
             if isinstance(test.ops[0], ast.IsNot):
                 return env[test.left.id][0], test.left.id, False, False
             if isinstance(test.ops[0], ast.Is):
@@ -321,8 +323,9 @@ class Tr:
         nar = self.narrow(test, env)
         if nar is not None:
             scrut, var, need_nz, negated = nar
-            v = self.fresh(var)
-            env_some = dict(env); env_some[var] = (v, Z)
+            n = env.get("#n", 0) + 1
+            v = "%s_%d" % (re.sub(r"\W", "_", var), n)
+            env_some = dict(env); env_some[var] = (v, {OZ: Z, "OBV": "BV"}[env[var][1]]); env_some["#n"] = n
             if negated:          # `x is None`: true branch has x = None
                 a, ta = k_true(env)
                 b, tb = k_false(env_some)
@@ -464,8 +467,12 @@ class Tr:
 
     def bind(self, env, var, e, t, rest_k):
         """let var := e in rest"""
-        v = self.fresh(var)
-        env2 = dict(env); env2[var] = (v, t)
+        if re.fullmatch(r"[A-Za-z_][A-Za-z0-9_']*", e):
+            env2 = dict(env); env2[var] = (e, t)          # plain alias: no binding needed
+            return rest_k(env2)
+        n = env.get("#n", 0) + 1
+        v = "%s_%d" % (re.sub(r"\W", "_", var), n)
+        env2 = dict(env); env2[var] = (v, t); env2["#n"] = n
         body, tb = rest_k(env2)
         if body == BOTTOM[0]:
             return body, tb
@@ -634,6 +641,213 @@ class Tr:
                 env2[n] = Poison(why)
         return K(env2)
 
+
+
+
+# --------------------------------------------------------------------------- tensor kernels (row-wise semantics)
+class VecTr(Tr):
+    """Translator for the row-wise tensor formulas of the RBMs and states.  A visible / hidden / auxiliary configuration
+    is ONE 0/1 vector (type BV, Coq `bits`); parameters are vectors (V) and matrices (M, row major); results are reals (F),
+    vectors or complex pairs (C).  The library evaluates the same expressions on batches by broadcasting over leading
+    dimensions; only operations that act row by row are accepted (matmul with a parameter, F.linear, elementwise
+    arithmetic and functions, sum over the last axis), so the batch result is the map of the row result — that reading of
+    broadcasting is part of the trusted translator.  Device / dtype moves (.to), .data, out= buffers, in-place variants
+    (add_, sigmoid_, clamp_, unsqueeze_ in a pairwise reading) are value-level identities / the plain operation."""
+
+    def expr(self, node, env):
+        # atoms with typed holes:  "self.rbm_am.effective_energy($v)"
+        for pat, coq, ty in self.atoms:
+            b = {}
+            if _match(pat, node, b):
+                out = coq
+                for k, sub in sorted(b.items(), key=lambda kv: -len(kv[0])):
+                    se, st = self.expr(sub, env)
+                    want = self.spec.get("hole_types", {}).get(k, "BV")
+                    out = out.replace("$" + k, self.coerce(se, st, want))
+                return out, ty
+        m = getattr(self, "v_" + type(node).__name__, None)
+        if m is not None:
+            r = m(node, env)
+            if r is not None:
+                return r
+        return Tr.expr(self, node, env)
+
+    def coerce(self, e, t, to):
+        if t == to:
+            return e
+        if t == "BV" and to == "V":
+            return "(map (b2t ROps) %s)" % e
+        if t == Z and to == F:
+            return "(IZR %s)" % e
+        return Tr.coerce(self, e, t, to)
+
+    def join(self, t1, t2):
+        if t1 == t2:
+            return t1
+        return Tr.join(self, t1, t2)
+
+    # ---- nodes
+    def v_Attribute(self, node, env):
+        if node.attr == "data":                      # parameter.data: the same values
+            return self.expr(node.value, env)
+        return None
+
+    def v_UnaryOp(self, node, env):
+        if isinstance(node.op, ast.USub):
+            a, ta = self.expr(node.operand, env)
+            if ta == "V":
+                return "(vopp ROps %s)" % a, "V"
+            if ta == "BV":
+                return "(vopp ROps %s)" % self.coerce(a, ta, "V"), "V"
+            if ta in (F, Z):
+                return "(Ropp %s)" % self.coerce(a, ta, F), F
+        return None
+
+    def v_BinOp(self, node, env):
+        a, ta = self.expr(node.left, env)
+        b, tb = self.expr(node.right, env)
+        op = type(node.op).__name__
+        vecs = ("V", "BV")
+        if ta in vecs and tb in vecs and op in ("Add", "Sub"):
+            return "(%s ROps %s %s)" % ("vadd" if op == "Add" else "vsub", self.coerce(a, ta, "V"), self.coerce(b, tb, "V")), "V"
+        if ta == "V" and tb == "V" and op == "Mult":
+            return "(vmul %s %s)" % (a, b), "V"
+        if op == "Add" and ta in (F, Z) and tb == "V":
+            return "(vaddc %s %s)" % (self.coerce(a, ta, F), b), "V"
+        if op == "Add" and tb in (F, Z) and ta == "V":
+            return "(vaddc %s %s)" % (self.coerce(b, tb, F), a), "V"
+        if op == "Mult" and ta in (F, Z) and tb in vecs:
+            return "(vscale ROps %s %s)" % (self.coerce(a, ta, F), self.coerce(b, tb, "V")), "V"
+        if op == "Mult" and tb in (F, Z) and ta in vecs:
+            return "(vscale ROps %s %s)" % (self.coerce(b, tb, F), self.coerce(a, ta, "V")), "V"
+        if op == "Mult" and ta in (F, Z) and tb == "M":
+            return "(map (vscale ROps %s) %s)" % (self.coerce(a, ta, F), b), "M"
+        if op == "Div" and ta in vecs and tb in (F, Z):
+            return "(map (fun x_ => Rdiv x_ %s) %s)" % (self.coerce(b, tb, F), self.coerce(a, ta, "V")), "V"
+        if ta in (F, Z) and tb in (F, Z):
+            if op == "Div":
+                return "(Rdiv %s %s)" % (self.coerce(a, ta, F), self.coerce(b, tb, F)), F
+            tab = {"Add": "Rplus", "Sub": "Rminus", "Mult": "Rmult"}
+            if op in tab and (ta == F or tb == F):
+                return "(%s %s %s)" % (tab[op], self.coerce(a, ta, F), self.coerce(b, tb, F)), F
+            return None
+        raise Untranslatable("tensor operator %s on %s, %s" % (op, ta, tb))
+
+    def v_IfExp(self, node, env):
+        # (v.unsqueeze(0) if v.dim() < 2 else v): rank normalisation, value-level identity
+        t = node.test
+        if isinstance(t, ast.Compare) and len(t.ops) == 1 and isinstance(t.ops[0], ast.Lt) and ast.unparse(t.comparators[0]) == "2" \
+                and isinstance(t.left, ast.Call) and isinstance(t.left.func, ast.Attribute) and t.left.func.attr == "dim" \
+                and isinstance(node.orelse, ast.Name) and ast.unparse(t.left.func.value) == node.orelse.id \
+                and ast.unparse(node.body) == node.orelse.id + ".unsqueeze(0)":
+            return self.expr(node.orelse, env)
+        return None
+
+    MAPS = {"exp": "exp", "sqrt": "sqrt", "cos": "cos", "sin": "sin", "sigmoid": "(sigmoid ROps)", "sigmoid_": "(sigmoid ROps)",
+            "exp_": "exp", "sqrt_": "sqrt", "neg": "Ropp", "log": "ln"}
+
+    def v_Call(self, node, env):
+        f = node.func
+        fname = ast.unparse(f)
+        kw = {k.arg: k.value for k in node.keywords}
+        args = node.args
+        if fname in ("torch.matmul", "torch.mv", "torch.dot") and len(args) == 2 and set(kw) <= {"out"}:
+            a, ta = self.expr(args[0], env)
+            b, tb = self.expr(args[1], env)
+            if ta == "BV" and tb == "V":
+                return "(dotb ROps %s %s)" % (b, a), F
+            if ta == "V" and tb == "BV":
+                return "(dotb ROps %s %s)" % (a, b), F
+            if ta == "V" and tb == "V":
+                return "(dot ROps %s %s)" % (a, b), F
+            if ta == "BV" and tb == "Mt":
+                return "(matvecb ROps %s %s)" % (b, a), "V"
+            if ta == "BV" and tb == "M":
+                return "(vecmatb ROps %s %s %s)" % (self.spec["ncols"], a, b), "V"
+            raise Untranslatable("matmul on %s, %s" % (ta, tb))
+        if fname in ("F.linear", "torch.nn.functional.linear") and len(args) in (2, 3) and not kw:
+            x, tx = self.expr(args[0], env)
+            W, tW = self.expr(args[1], env)
+            if tx == "BV" and tW == "M":
+                if len(args) == 3:
+                    c, tc = self.expr(args[2], env)
+                    if tc == "V":
+                        return "(linearb ROps %s %s %s)" % (W, c, x), "V"
+                else:
+                    return "(matvecb ROps %s %s)" % (W, x), "V"
+            raise Untranslatable("F.linear on %s, %s" % (tx, tW))
+        if fname in ("F.softplus", "torch.nn.functional.softplus") and len(args) == 1 and not kw:
+            x, tx = self.expr(args[0], env)
+            if tx == "V":
+                return "(map (softplus ROps) %s)" % x, "V"
+            if tx == F:
+                return "(softplus ROps %s)" % x, F
+        if fname in ("torch.sigmoid",) and len(args) == 1 and not kw:
+            x, tx = self.expr(args[0], env)
+            if tx == "V":
+                return "(map (sigmoid ROps) %s)" % x, "V"
+            if tx == F:
+                return "(sigmoid ROps %s)" % x, F
+        if fname == "torch.atan2" and len(args) == 2 and not kw:
+            a, ta = self.expr(args[0], env)
+            b, tb = self.expr(args[1], env)
+            if ta == "V" and tb == "V":
+                return "(vatan2 %s %s)" % (a, b), "V"
+            if ta == F and tb == F:
+                return "(Ratan2 %s %s)" % (a, b), F
+        if fname in ("cplx.real", "cplx.imag") and len(args) == 1 and not kw:
+            a, ta = self.expr(args[0], env)
+            if ta == "C":
+                return "(%s %s)" % ("fst" if fname == "cplx.real" else "snd", a), F
+        if fname == "cplx.make_complex" and len(args) == 1 and not kw:
+            a, ta = self.expr(args[0], env)
+            if ta == F:
+                return "(%s, IZR 0)" % a, "C"
+        if fname == "cplx.make_complex" and len(args) == 2 and not kw:
+            a, ta = self.expr(args[0], env)
+            b, tb = self.expr(args[1], env)
+            if ta == F and tb == F:
+                return "(%s, %s)" % (a, b), "C"
+        if fname in ("torch.zeros_like",) and len(args) == 1 and not kw:
+            a, ta = self.expr(args[0], env)
+            if ta == F:
+                return "(IZR 0)", F
+        if isinstance(f, ast.Attribute):
+            meth = f.attr
+            if meth == "to":                               # device / dtype move
+                return self.expr(f.value, env)
+            if meth == "t" and not args and not kw:
+                x, tx = self.expr(f.value, env)
+                if tx == "M":
+                    return x, "Mt"
+            if meth in ("sum",) and set(kw) <= set() and [ast.unparse(a) for a in args] in ([], ["-1"]):
+                x, tx = self.expr(f.value, env)
+                if tx == "V":
+                    return "(sum ROps %s)" % x, F
+            if meth in ("add", "add_", "sub", "sub_") and len(args) == 1 and not kw:
+                x, tx = self.expr(f.value, env)
+                y, ty = self.expr(args[0], env)
+                sub = meth.startswith("sub")
+                if tx == "V" and ty in ("V", "BV"):
+                    return "(%s ROps %s %s)" % ("vsub" if sub else "vadd", x, self.coerce(y, ty, "V")), "V"
+                if tx == F and ty in (F, Z):
+                    return "(%s %s %s)" % ("Rminus" if sub else "Rplus", x, self.coerce(y, ty, F)), F
+            if meth in self.MAPS and not args and not kw:
+                x, tx = self.expr(f.value, env)
+                g = self.MAPS[meth]
+                if tx == "V":
+                    return "(map %s %s)" % (g, x), "V"
+                if tx in (F, Z):
+                    return "(%s %s)" % (g, self.coerce(x, tx, F)), F
+            if meth in ("clamp", "clamp_") and not args and set(kw) == {"min", "max"} and ast.unparse(kw["min"]) == "0" and ast.unparse(kw["max"]) == "1":
+                x, tx = self.expr(f.value, env)
+                if tx == "V":
+                    return "(map clamp01 %s)" % x, "V"
+                if tx == F:
+                    return "(clamp01 %s)" % x, F
+            if meth in ("unsqueeze", "unsqueeze_") and len(args) == 1 and self.spec.get("pairwise"):
+                return self.expr(f.value, env)              # outer sum read pairwise
+        return None
 
 
 # --------------------------------------------------------------------------- control skeleton of fit (C12)
@@ -817,7 +1031,7 @@ def translate_kernel(repo, spec):
         raise Untranslatable("function %s not found in %s" % (spec["func"], spec["file"]))
     if spec.get("kind") == "fit-skeleton":
         return "Definition gen_%s : skel :=\n  %s." % (spec["name"], extract_fit_skeleton(fn)), "skel"
-    tr = Tr(spec, class_functions(tree, spec["func"]))
+    tr = (VecTr if spec.get("vec") else Tr)(spec, class_functions(tree, spec["func"]))
     env = {}
     for py, coq, ty in spec["inputs"]:
         env[py] = (coq, ty)
